@@ -361,6 +361,38 @@ pub fn keyword_table() -> Space {
     }
 }
 
+/// Words that are identifiers only for a Unicode-aware `\\w` / `\\d` / `[[:alpha:]]`: the grammar's names
+/// are ASCII (`[a-zA-Z_][a-zA-Z0-9_]*`), so every one of these makes the document unlexable.
+/// No decimal digits (Nd): the FLOAT pattern's `\\d` accepts them, a cell the statement leaves open (DESIGN 9.5).
+pub const UNICODE_WORDS: [&str; 13] = [
+    "Caf\u{e9}", "\u{e9}a", "a\u{e9}b", "ae\u{301}", "a\u{203f}b", "x\u{65e5}",
+    "\u{65e5}x", "a\u{200d}b", "a\u{aa}b", "\u{1c5}x", "x\u{2160}", "_\u{3b1}", "a\u{ff3f}b",
+];
+
+/// Non-ASCII word characters (letters, digits, marks, connector punctuation, join controls) at
+/// the start, in the middle and at the end of a name, in every identifier slot and as an
+/// annotation name.
+pub fn unicode_words() -> Space {
+    let mut slots: Vec<(&str, &str)> = SLOTS.to_vec();
+    slots.push(("annotation-name", "package p; @# interface I { }"));
+    slots.push(("annotation-name-member", "package p; interface I { @# void f(); }"));
+    let n = UNICODE_WORDS.len() * slots.len();
+    Space {
+        name: "UNICODE-WORDS".into(),
+        n,
+        describe: format!(
+            "{} words with non-ASCII word characters (Ll, Lo, Lt, Nl, Mn, Pc, join control; first / middle / last position) in each of {} identifier and annotation-name slots",
+            UNICODE_WORDS.len(),
+            slots.len()
+        ),
+        gen: Box::new(move |i| {
+            let w = UNICODE_WORDS[i % UNICODE_WORDS.len()];
+            let (sname, tpl) = slots[i / UNICODE_WORDS.len()];
+            (format!("slot {sname} <- {w:?}"), tpl.replace('#', w))
+        }),
+    }
+}
+
 /// Lexeme variants the E-SEQ representatives do not cover.
 pub fn lexeme_variants() -> Space {
     let texts: Vec<(&str, String)> = vec![
